@@ -676,8 +676,13 @@ def _footprint(ex, op, pre, pre_uid):
     elif name == "add_data":
         wsn, pu = handle_uid(op[1])
         add(wsn, pu, {"links"})
-    elif name in ("pg_add", "pg_rm", "pg_del"):
+    elif name in ("pg_add", "pg_rm", "pg_del", "pg_add_foreign"):
         add(pre.ws_of[op[1]], op[1], {"pgs"})
+    elif name == "retype":
+        add(pre.ws_of[op[1]], op[1], ALL)
+    elif name == "rm_par_all":
+        wsn, pu = handle_uid(op[1])
+        add(wsn, pu, {"links", "pgs"})
     elif name == "move":
         e = op[1]
         wsn = pre.ws_of[e]
@@ -710,6 +715,9 @@ def clauses_c09(ex, obs) -> list:
         removed_now = set()
         if op[0] in ("rm_ws", "rm_par") and not refused:
             removed_now = {str(pre_uid[i]) for i in [op[1]] + pre.descendants(op[1])}
+        if op[0] == "rm_par_all" and not refused:
+            for k in pre.kids(op[1]):
+                removed_now |= {str(pre_uid[i]) for i in [k] + pre.descendants(k)}
         for wsn in (1, 2):
             if not ex.before["d"][wsn]:
                 continue  # the second workspace did not exist before this operation
@@ -807,7 +815,7 @@ class C11Protocol:
             if id(e) not in seen and hasattr(e, "uid") and e.workspace is ex.ws:
                 seen.add(id(e))
                 probes.append(e)
-        if mode in ("fetch_r+_from_r", "fetch_r_from_closed"):
+        if mode.startswith(("fetch_r+_from_r", "fetch_r_from_closed")):
             probes = []  # entities of the first session belong to a tree that is re-loaded by these modes
         g_before = _h5_count()
         f_before = _h5_count(ex.ws.geoh5.id) + (_h5_count(ex.ws2.geoh5.id) if ex.ws2 is not None else 0)
@@ -850,6 +858,17 @@ class C11Protocol:
             with fetch_active_workspace(ex.ws, mode="r") as w:
                 obs["mode_inside"] = w.geoh5.mode
                 _ = [c.name for c in w.root.children]
+        elif mode in ("fetch_r+_from_r_raise", "fetch_r_from_closed_raise"):
+            # the helper opened the workspace itself and an exception escapes ITS block
+            ex.ws.close()
+            if mode.startswith("fetch_r+_from_r"):
+                ex.ws.open(mode="r")
+            try:
+                with fetch_active_workspace(ex.ws, mode="r+" if mode.startswith("fetch_r+") else "r") as w:
+                    obs["mode_inside"] = w.geoh5.mode
+                    raise RuntimeError("boom")
+            except RuntimeError:
+                escaped = "RuntimeError"
         obs["escaped"] = escaped
         if ex.ws2 is not None:
             ex.ws2.close()
@@ -933,7 +952,8 @@ def clauses_c11(ex, obs) -> list:
         d = observe.diff(a, b)
         if d:
             out.append(("reopen-restores-same-content", _witness(ex, d, a, b), {"diff": d[:10], "exit": mode}))
-    want_mode = {"fetch_r+": ("r+",), "fetch_r": ("r", "r+"), "fetch_r+_from_r": ("r+",), "fetch_r_from_closed": ("r",)}.get(mode)
+    want_mode = {"fetch_r+": ("r+",), "fetch_r": ("r", "r+"), "fetch_r+_from_r": ("r+",), "fetch_r_from_closed": ("r",),
+                 "fetch_r+_from_r_raise": ("r+",), "fetch_r_from_closed_raise": ("r",)}.get(mode)
     if want_mode and obs.get("mode_inside") not in want_mode:
         out.append(("helper-reopens-in-requested-mode", f"{mode}:{obs.get('mode_inside')}", {}))
     if mode in ("fetch_r", "fetch_r+") and obs.get("open_after_same_mode_fetch") is False:
